@@ -369,4 +369,118 @@ theorem still_attacked (h : SimpleMove b b' w f t) (hv : ValidB b) (hv' : ValidB
 
 end SimpleMove
 
+/-! ## from a pseudo-legal move to `SimpleMove` -/
+
+theorem pc_king (w : Bool) : pc w 1 = (if w then WKING else BKING) := by cases w <;> rfl
+
+theorem king_of_kind (w : Bool) (p : Pc) (ho : own w p = true) (hk : kind p = 1) : p = (if w then WKING else BKING) := by
+  have := beq_pc1 w p
+  rw [ho, hk] at this
+  rw [← pc_king]; simpa using this
+
+theorem kind_king (w : Bool) : kind (if w then WKING else BKING) = 1 := by cases w <;> decide
+theorem own_king (w : Bool) : own w (if w then WKING else BKING) = true := by cases w <;> decide
+
+theorem promo_own (w : Bool) (pr : Pc) (h : pr ∈ promos w) (hne : pr ≠ 0) :
+    own w pr = true ∧ pr ≠ (if w then WKING else BKING) := by
+  cases w <;> simp [promos] at h <;> rcases h with rfl | rfl | rfl | rfl | rfl <;> first | exact absurd rfl hne | decide
+
+theorem pseudo_ne (p : Pos) (m : Mv) (hp : pseudo p m = true) : m.f ≠ m.t := by
+  have := (PosImpl.pseudo_basic p m hp).2.2
+  intro e; exact this (by rw [e])
+
+theorem pseudo_nown_t (p : Pos) (m : Mv) (hp : pseudo p m = true) : own p.wtm p.b[m.t] = false := by
+  have := (PosImpl.pseudo_basic p m hp).2.1; rwa [getP_sq] at this
+
+theorem pseudo_own_f (p : Pos) (m : Mv) (hp : pseudo p m = true) : own p.wtm p.b[m.f] = true := pseudo_own p m hp
+
+/-- a pseudo-legal move of a piece other than the king that does not go to the e.p. square: only the from- and
+    to-squares change, and the king stays where it is -/
+theorem simple_of_pseudo (p : Pos) (m : Mv) (hp : pseudo p m = true) (k : Sq) (hk : KingAt p.b p.wtm k)
+    (hfk : m.f ≠ k) (hep : p.ep ≠ some m.t) :
+    SimpleMove p.b (apply p m).b p.wtm m.f m.t ∧ KingAt (apply p m).b p.wtm k := by
+  have hnk : ¬ kind p.b[m.f] = 1 := by
+    intro h1
+    exact hfk (hk.2 _ (king_of_kind _ _ (pseudo_own_f p m hp) h1))
+  have hnep : PosImpl.isEpS p m = false := by
+    unfold PosImpl.isEpS
+    have : (p.ep == some m.t) = false := by simpa using hep
+    rw [this]; simp
+  have hb := apply_b_simple p m hnep (fun h => hnk h.1)
+  have hft := pseudo_ne p m hp
+  have hprom := pseudo_promo p m hp
+  have hto : own p.wtm (apply p m).b[m.t] = true ∧ (apply p m).b[m.t] ≠ (if p.wtm then WKING else BKING) := by
+    rw [hb m.t, if_pos rfl]
+    by_cases h0 : m.promo = 0
+    · rw [h0]; simp only [bne_self_eq_false, Bool.false_eq_true, if_false]
+      refine ⟨pseudo_own_f p m hp, ?_⟩
+      intro e; exact hfk (hk.2 _ e)
+    · have : (m.promo != 0) = true := bne_iff_ne.2 h0
+      rw [this]; simp only [if_true]
+      exact promo_own _ _ hprom h0
+  have htk : m.t ≠ k := by
+    intro e
+    have := pseudo_nown_t p m hp
+    subst e
+    rw [hk.1, own_king] at this; cases this
+  refine ⟨⟨hft, pseudo_own_f p m hp, hto.1, ?_, ?_⟩, ?_, ?_⟩
+  · rw [hb m.f, if_neg hft, if_pos rfl]
+  · intro q h1 h2; rw [hb q, if_neg h2, if_neg h1]
+  · rw [hb k, if_neg (Ne.symm htk), if_neg (Ne.symm hfk)]; exact hk.1
+  · intro s hs
+    rw [hb s] at hs
+    by_cases e1 : s = m.t
+    · have hto' := hto.2
+      rw [hb m.t, if_pos rfl] at hto'
+      rw [if_pos e1] at hs; exact absurd hs hto'
+    · rw [if_neg e1] at hs
+      by_cases e2 : s = m.f
+      · rw [if_pos e2] at hs
+        cases hw : p.wtm <;> rw [hw] at hs <;> cases hs
+      · rw [if_neg e2] at hs; exact hk.2 s hs
+
+theorem inCheck_of_kingAt (b : Board) (hv : ValidB b) (w : Bool) (k : Sq) (hk : KingAt b w k) :
+    Chess.inCheck b w = sqAttacked b w k (occBB b) := by
+  unfold Chess.inCheck
+  rw [kingSq_of_kingAt b w k hk, sqAttacked_spec b hv]
+
+/-! ## `removeIllegal` -/
+
+/-- **`MoveGen::removeIllegal` keeps exactly the moves after which the mover's king is not attacked** (order kept) -/
+theorem removeIllegal_eq (p : Pos) (k : Sq) (hv : ValidB p.b) (hk : KingAt p.b p.wtm k) (l : List Mv)
+    (hl : ∀ m ∈ l, pseudo p m = true) :
+    removeIllegal p k l = l.filter fun m => !Chess.inCheck (apply p m).b p.wtm := by
+  unfold removeIllegal
+  simp only
+  split
+  · rename_i hchk
+    apply List.filter_congr
+    intro m hm
+    have hp := hl m hm
+    split
+    · rename_i hc
+      simp only [Bool.and_eq_true, bne_iff_ne, ne_eq, and_sqBit_eq_zero, Bool.not_eq_true', tst_or, Bool.or_eq_false_iff, tst_pcBB,
+        beq_eq_false_iff_ne] at hc
+      obtain ⟨⟨hfk, ⟨hr, hb⟩, hkn⟩, hep⟩ := hc
+      obtain ⟨hs, hk'⟩ := simple_of_pseudo p m hp k hk hfk hep
+      have hv' := validB_apply p hv m hp
+      rw [inCheck_of_kingAt _ hv' _ k hk']
+      have := hs.still_attacked hv hv' k hchk (by rintro (h | h) <;> simp_all) (fun h => hkn h.2)
+      rw [this]; rfl
+    · rw [inCheckAfter_eq p hv m hp]
+  · rename_i hchk
+    apply List.filter_congr
+    intro m hm
+    have hp := hl m hm
+    split
+    · rename_i hc
+      simp only [Bool.and_eq_true, bne_iff_ne, ne_eq, and_sqBit_eq_zero, Bool.not_eq_true', tst_or, Bool.or_eq_false_iff] at hc
+      obtain ⟨⟨hfk, hr, hb⟩, hep⟩ := hc
+      obtain ⟨hs, hk'⟩ := simple_of_pseudo p m hp k hk hfk hep
+      have hv' := validB_apply p hv m hp
+      rw [inCheck_of_kingAt _ hv' _ k hk']
+      have := hs.not_attacked_after hv hv' k (by simpa [inCheckK] using hchk) (by rintro (h | h) <;> simp_all)
+      rw [this]; rfl
+    · rw [inCheckAfter_eq p hv m hp]
+
 end Chess.Texel
